@@ -245,7 +245,12 @@ impl FsmExecutor {
             Ok(mut fsm) => {
                 #[cfg(feature = "Trace")]
                 fsm.tracer.enable_trace(trace);
-                fsm.caller_invoke_id = Some(invoke_id.clone());
+                // Sessions that are not started by some <invoke> have no invoke id.
+                fsm.caller_invoke_id = if invoke_id.is_empty() {
+                    None
+                } else {
+                    Some(invoke_id.clone())
+                };
                 fsm.parent_session_id = parent;
                 let session = fsm::start_fsm_with_data(fsm, actions, Box::new(self.clone()), data);
                 Ok(session)
@@ -281,7 +286,12 @@ impl FsmExecutor {
             Ok(mut fsm) => {
                 #[cfg(feature = "Trace")]
                 fsm.tracer.enable_trace(trace);
-                fsm.caller_invoke_id = Some(invoke_id.clone());
+                // Sessions that are not started by some <invoke> have no invoke id.
+                fsm.caller_invoke_id = if invoke_id.is_empty() {
+                    None
+                } else {
+                    Some(invoke_id.clone())
+                };
                 fsm.parent_session_id = parent;
                 let session = fsm::start_fsm_with_data_and_finish_mode(
                     fsm,
